@@ -175,7 +175,9 @@ theorem readMembers_enc (p : Enc) : ∀ (ms : List MemberDecl) (st : St) (r : By
 
 theorem int_ne_nil (p : Enc) (n : Int) : p.int n ≠ [] := by
   simp only [Enc.int, encodePackedIntW, packedBytes]
-  split <;> simp
+  split
+  · split <;> simp
+  · simp
 
 theorem int_length_pos (p : Enc) (n : Int) : 1 ≤ (p.int n).length := by
   have := int_ne_nil p n
